@@ -511,7 +511,11 @@ def build(spec, logs=None, fault=None):
             base = make_dist(d)
         if base is None: return None
         if fault is not None and fault[0] == stream[0]:
-            base = FaultDist(base, fault[1], fault[2], fault[3])
+            if fault[2] == 'COMBNEG':
+                # both operands of a combined distribution are valid, their difference is not (k-th draw: base - 1e6)
+                base = base - FaultDist(ciw.dists.Deterministic(0.0), fault[1], 1e6, fault[3])
+            else:
+                base = FaultDist(base, fault[1], fault[2], fault[3])
         if slog is None: return base
         return LogDist(base, stream, slog)
     arr = {c: [wrap(spec['arrivals'][c][i], ('arr', i + 1, c)) for i in range(n)] for c in classes}
